@@ -16,6 +16,9 @@ RULE = ('A case is a history of 3-18 (thorough: 3-40) evaluations of the real _r
         'else, monitors are written through masterapi.update_appmonitor '
         '(count 0-50, policy None/fifo/lifo/invalid, policy-only and '
         'count-only writes), '
+        '/scheduled (every node) lists its children in creation (= id) order, '
+        'in reverse or in one of 8 hash orders (1/4, 1/4, 1/2 of the '
+        'histories; ZooKeeper promises no order), '
         'deleted and re-created, the ZooKeeper connection flaps (SUSPENDED '
         'or LOST, then CONNECTED, no node changed; ~1 round in 10), and the '
         'instance API (a counting stand-in in 2/3 of the histories) '
@@ -29,6 +32,10 @@ RULE = ('A case is a history of 3-18 (thorough: 3-40) evaluations of the real _r
         'again, and an API failure suspended a monitor. distinct = canonical '
         'JSON of the case.')
 ASSUMPTIONS = [
+    'get_children of the stand-in lists children in the order the case '
+    'names (creation order / reverse / crc32 hash order with a salt), the '
+    'same rule for every node and every listing of a history; ZooKeeper '
+    'promises no order, so every such order is one a real server may give',
     'ZooKeeper is an in-memory stand-in delivering one-shot watches '
     'synchronously; kazoo ChildrenWatch, treadmill ExistingDataWatch, '
     'masterapi and zkutils are the real code',
@@ -185,6 +192,30 @@ def fixed_cases():
                 {'dt': 0, 'ops': [], 'api': {web: 'badrequest'}},
                 {'dt': 0, 'ops': []},
                 {'dt': 301, 'ops': []},
+                {'dt': 0, 'ops': []},
+            ]}),
+        # /scheduled lists its children in no particular order (reverse and
+        # hash orders): partial scale-downs still take the oldest / newest ids
+        ('scale-down-unordered-listing', {
+            'seq0': 7, 'listing': ['hash', 0],
+            'init': [['mon', web, 4, 'fifo'], ['spawn', web, 3],
+                     ['mon', 'other.db', 5, 'lifo'], ['spawn', 'other.db', 4],
+                     ['spawn', web, 3], ['spawn', 'other.db', 3]],
+            'rounds': [
+                {'dt': 0, 'ops': []},
+                {'dt': 0, 'ops': [['mon', web, 1, None],
+                                  ['mon', 'other.db', 2, None]]},
+                {'dt': 0, 'ops': [['spawn', web, 4]]},
+                {'dt': 0, 'ops': []},
+            ]}),
+        ('scale-down-reverse-listing', {
+            'seq0': 98, 'listing': 'reverse',
+            'init': [['mon', web, 4, None], ['spawn', web, 6],
+                     ['mon', 'proid.web-x', 2, 'lifo'],
+                     ['spawn', 'proid.web-x', 7]],
+            'rounds': [
+                {'dt': 0, 'ops': []},
+                {'dt': 0, 'ops': [['mon', web, 1, None]]},
                 {'dt': 0, 'ops': []},
             ]}),
         # monitors deleted / re-created / rewritten while apps interleave
